@@ -203,6 +203,12 @@ def call_value(eng, f, args, kwargs, node, fr):
             for p, v in zip(params, args):
                 env[p] = v
             return eng.eval(f.node.body, Frame(f.frame.modname, f.frame.qual, env, f.frame.self_val))
+        if k == "namedtuple":
+            o = eng.new_obj(f.name)
+            vals = list(args) + [kwargs[n] for n in f.fields[len(args):]]
+            for n, v in zip(f.fields, vals):
+                eng.state.heap[(o.oid, n)] = v
+            return o
         if k == "builtin":
             fn = BUILTINS.get(f.name)
             if fn is None:
@@ -1101,6 +1107,15 @@ def dict_method(eng, d, attr, args, kwargs, node, fr):
         if len(args) > 1:
             return args[1]
         raise RaiseSig(VExc("KeyError"))
+    if attr in ("remove", "discard") and m.tag == "strset":
+        p, v = eng.dict_get(d, args[0], node)
+        if attr == "remove":
+            eng.builtin_pre("KeyError", p, node)
+        ck, sym = eng.dict_key(args[0], node)
+        if ck is None:
+            raise OutOfSubset("set remove with symbolic element", node)
+        m.entries[ck] = (z3.BoolVal(False), NONE)
+        return NONE
     if attr == "items":
         if not m.open and not getattr(m, "sym_entries", None):
             out = []
